@@ -4,8 +4,8 @@ import math
 import numpy as np
 
 ID = "C12"
-CASES = {"quick": 2500, "thorough": 50000}
-MIN_NONTRIVIAL = {"quick": 800, "thorough": 15000}
+CASES = {"quick": 2500, "thorough": 100000}
+MIN_NONTRIVIAL = {"quick": 800, "thorough": 14547}
 REQUIRED = ["invariant: resolution*pixel_size == width/height (icontract, after every public mutation)",
             "invariant: width/height == extent of the reported ranges", "invariant: resolution entries are ints >= 1",
             "covered range contains what the operation asked for", "covered range exceeds the request by <= one pixel",
